@@ -10,7 +10,7 @@ pub const DEF: CheckDef = CheckDef {
     id: "C02",
     run,
     technique: "explicit-state BFS over reference ledger states (key = per-account balances) plus exhaustive depth-1 enumeration of all assertion-bearing transactions from 8 start states in 3 rendering modes; every edge re-executes the real book-keeping code on the whole history and is compared with the reference model",
-    rule: "case = edge (history reaching a reference state, next transaction). Depth-1: ALL transactions of 1..3 (thorough: ..4 over a reduced alphabet) postings over the posting alphabet that contain at least one `= X` assertion, from each of 8 start states, written plainly, through account aliases, and with the history in an included file. History search: BFS to depth 3/5 over a 24-transaction alphabet, states deduplicated on the canonical key (sorted per-account per-commodity balances; sound because book-keeping of a transaction depends on earlier entries only through balances, declared aliases and precisions, and the latter two are fixed). states = distinct reference states + distinct depth-1 inputs, transitions = edges executed on the real code",
+    rule: "case = edge (history reaching a reference state, next transaction). Depth-1: ALL transactions of 1..3 (thorough: ..4 over a reduced alphabet) postings over the posting alphabet that contain at least one `= X` assertion, from each of 8 start states, written plainly, through account aliases, and with the history in an included file. History search: BFS to depth 3/5 over a 27-transaction alphabet, states deduplicated on the canonical key (sorted per-account per-commodity balances; sound because book-keeping of a transaction depends on earlier entries only through balances, declared aliases and precisions, and the latter two are fixed). states = distinct reference states + distinct depth-1 inputs, transitions = edges executed on the real code",
     assumptions: &[
         "RefLedger applies postings in file order including the inferred (omitted) posting at its written position; an omitted posting followed by an ASSIGNMENT on the same account is circular and DON'T-CARE",
         "accounts {A,B,E}, commodities {X,Y}, values {-1,0,1,2,3}",
@@ -25,7 +25,11 @@ fn has_assertion(t: &Txn) -> bool {
 }
 
 pub fn judge(case: &Case, st: &State, txn: &Txn, n_hist: usize) -> Outcome {
-    let exp = rl::step(st, &Prec::new(), txn);
+    judge_with(case, st, txn, n_hist, &Prec::new())
+}
+
+pub fn judge_with(case: &Case, st: &State, txn: &Txn, n_hist: usize, prec: &Prec) -> Outcome {
+    let exp = rl::step(st, prec, txn);
     let got = bk::run_real(case).result;
     let d14 = rl::omitted_then_constraint_same_account(txn) == Some("assert");
     let shape = if d14 {
@@ -103,4 +107,60 @@ fn run(ctx: &mut Ctx) {
     bk::enumerate_depth1(ctx, &has_assertion, &judge);
     let depth = ctx.tier.pick(3, 5);
     bk::enumerate_history(ctx, depth, &judge);
+    precision_family(ctx);
+}
+
+/// Assertions against balances that are finer than a commodity's declared precision: the balance an assertion sees
+/// is the exact one (an inferred amount is the exact remainder, a cost is the exact product), never the figure
+/// rounded for display. All (t1, t2) with t1 from 7 transactions leaving a sub-precision balance on B (inferred,
+/// via a cost, explicit) and t2 from 36 assertion postings on B (exact value, value rounded to 2 and to 0 places,
+/// neighbours), under 2 declared precisions of X.
+fn precision_family(ctx: &mut Ctx) {
+    use crate::refledger::{Ann, P};
+    let t1s: Vec<Txn> = vec![
+        vec![P::amt("A", "0.005", "X"), P::omitted("B")],
+        vec![P::amt("A", "-0.015", "X"), P::omitted("B")],
+        vec![P::amt("A", "0.333", "X"), P::omitted("B")],
+        vec![P::amt("A", "1", "Y").with_ann(Ann::Rate("0.005", "X")), P::omitted("B")],
+        vec![P::amt("A", "3", "Y").with_ann(Ann::Rate("1.114", "X")), P::omitted("B")],
+        vec![P::amt("A", "1.114", "X"), P::amt("A", "1.114", "X"), P::amt("A", "1.114", "X"), P::omitted("B")],
+        vec![P::amt("B", "-3.342", "X"), P::omitted("A")],
+    ];
+    const WS: [&str; 18] = ["-0.005", "-0.01", "-0.00", "0", "0.015", "0.02", "0.01", "-0.333", "-0.33", "-0.3", "-3.342", "-3.34", "-3.3", "-3", "-3.35", "-0.34", "-1", "1"];
+    let mut t2s: Vec<Txn> = vec![];
+    for w in WS {
+        t2s.push(vec![P::amt("B", "0", "").with_bal(Bal::Val(w, "X"))]);
+        t2s.push(vec![P::amt("B", "0", "X").with_bal(Bal::Val(w, "X")), P::omitted("E")]);
+    }
+    let precs: Vec<Prec> = vec![[("X", 2u32)].into_iter().collect(), [("X", 0u32)].into_iter().collect()];
+    ctx.fact("precision_family_cases", (t1s.len() * t2s.len() * precs.len()) as u64);
+    for prec in &precs {
+        let header = rl::prec_header(prec);
+        for t1 in &t1s {
+            let st = match rl::step(&State::default(), prec, t1) {
+                Exp::Accept { next, .. } => next,
+                other => panic!("harness bug: precision-family history not accepted by the reference: {:?}", other),
+            };
+            for t2 in &t2s {
+                if !ctx.next_is_mine() {
+                    ctx.skip_cases(1);
+                    continue;
+                }
+                let r = rl::render(&header, &[t1.clone(), t2.clone()], &|_, _, a| a.to_string());
+                let (f, l) = r.txn_lines[1];
+                let case = Case { desc: r.text.clone(), files: vec![(oka::ROOT.to_string(), r.text.clone())], txn_first: f, txn_last: l, posting_lines: r.posting_lines[1].clone(), hist_has_assert_after_omitted: false };
+                ctx.case(
+                    || format!("[assertion against a sub-precision balance]\n{}", case.desc),
+                    || {
+                        let o = judge_with(&case, &st, t2, 1, prec);
+                        match o.verdict {
+                            crate::fw::Verdict::Pass => Outcome::pass(format!("precision/{}", o.class)),
+                            crate::fw::Verdict::DontCare => Outcome::dont_care(format!("precision/{}", o.class)),
+                            crate::fw::Verdict::Violation { sig, detail } => Outcome::violation(format!("precision/{}", sig), detail),
+                        }
+                    },
+                );
+            }
+        }
+    }
 }
